@@ -45,7 +45,8 @@ def _fn_body(src, name):
 def scan():
     t = {"footer_size": None, "min_file_size": None, "footer_len_checked": None, "setmap_implemented": None,
          "double_checked": None, "vlq_shift_checked": None, "fid_add_checked": None, "list_len_checked": None,
-         "page_copy_len_checked": None, "chunk_range_checked": None}
+         "page_copy_len_checked": None, "chunk_range_checked": None,
+         "v2_levels_le_compressed": None, "v2_levels_le_uncompressed": None}
     md = _read("metadata/mod.rs")
     m = re.search(r"const\s+FOOTER_SIZE\s*:\s*usize\s*=\s*(\d+)\s*;", md)
     if m:
@@ -92,6 +93,15 @@ def scan():
         # alternative shape of the repair: both header sizes converted with usize::try_from and compared once up front
         conv = re.search(r"usize::try_from\(\s*metadata\.compressed_page_size", pr) and re.search(r"usize::try_from\(\s*metadata\.uncompressed_page_size", pr)
         t["page_copy_len_checked"] = nchk >= ncopy or bool(conv)
+    # page_reader.rs prepare_data_page_v2, compressed branch: rep + def level byte lengths compared with BOTH page sizes
+    v2 = _fn_body(pr, "prepare_data_page_v2")
+    if v2 is not None and "rep_levels_byte_len" in v2:
+        a = v2.find("let uncompressed_len")
+        b = v2.find("let levels_dest")
+        if 0 <= a < b:
+            mid = re.sub(r"\s+", " ", v2[a:b])
+            t["v2_levels_le_compressed"] = bool(re.search(r"len\s*<=\s*compressed_size|compressed_size\s*>=\s*len", mid))
+            t["v2_levels_le_uncompressed"] = bool(re.search(r"len\s*<=\s*uncompressed_size|uncompressed_size\s*>=\s*len", mid))
     # reader.rs fetch loop: chunk range compared with the file size before the buffer is sized, and a read of 0 bytes
     # into a non-empty buffer is an error
     rd = _read("reader.rs")
@@ -122,7 +132,10 @@ def render(t):
         "(* column/page_reader.rs: every `dest.copy_from_slice(src)` of an uncompressed page is guarded by a length test *)",
         "Definition page_copy_len_checked : option bool := %s." % ob(t["page_copy_len_checked"]),
         "(* reader.rs: chunk range checked against the file size before prepare_for_chunk, and Ok(0) reads are errors *)",
-        "Definition chunk_range_checked : option bool := %s." % ob(t["chunk_range_checked"]), ""])
+        "Definition chunk_range_checked : option bool := %s." % ob(t["chunk_range_checked"]),
+        "(* page_reader.rs prepare_data_page_v2 (compressed): rep + def level byte lengths <= compressed_page_size / <= uncompressed_page_size *)",
+        "Definition v2_levels_le_compressed : option bool := %s." % ob(t["v2_levels_le_compressed"]),
+        "Definition v2_levels_le_uncompressed : option bool := %s." % ob(t["v2_levels_le_uncompressed"]), ""])
 
 
 def regenerate():
